@@ -178,13 +178,20 @@ def findlabels_pre_310(code, opc):
 NO_LINE_NUMBER = -128
 
 
-def findlinestarts(code, dup_lines=False, signed_line_deltas=True):
+def findlinestarts(
+    code, dup_lines=False, signed_line_deltas=True, stop_at_code_end=True
+):
     """Find the offsets in a byte code which are start of lines in the source.
 
     Generate pairs (offset, lineno) as described in Python/compile.c.
 
     ``signed_line_deltas`` should be False for bytecode before Python 3.6,
     where the line increments of ``co_lnotab`` are unsigned bytes.
+
+    ``stop_at_code_end`` should be False for bytecode before Python 3.8.
+    From 3.8 on ``co_lnotab`` can describe code that has been optimized
+    away, and ``dis`` stops at the end of the bytecode; before that an entry
+    at the end of the code is reported like any other.
     """
 
     if hasattr(code, "co_lines"):
@@ -227,11 +234,11 @@ def findlinestarts(code, dup_lines=False, signed_line_deltas=True):
                         yield offset, lineno
                         lastlineno = lineno
                         pass
-                    if offset >= bytecode_len:
+                    offset += byte_incr
+                    if stop_at_code_end and offset >= bytecode_len:
                         # The rest of the ``lnotab byte offsets are past the end of
                         # the bytecode; any line numbers for these have been removed.
                         return
-                    offset += byte_incr
                     pass
                 if signed_line_deltas and line_delta >= 0x80:
                     # Since 3.6, line_deltas is an array of 8-bit *signed* integers
@@ -246,7 +253,15 @@ def findlinestarts(code, dup_lines=False, signed_line_deltas=True):
 def findlinestarts_pre36(code, dup_lines=False):
     """findlinestarts() for bytecode before Python 3.6: ``co_lnotab`` line
     increments are unsigned."""
-    return findlinestarts(code, dup_lines=dup_lines, signed_line_deltas=False)
+    return findlinestarts(
+        code, dup_lines=dup_lines, signed_line_deltas=False, stop_at_code_end=False
+    )
+
+
+def findlinestarts_pre38(code, dup_lines=False):
+    """findlinestarts() for Python 3.6 and 3.7 bytecode: signed line
+    increments, and no stopping at the end of the bytecode."""
+    return findlinestarts(code, dup_lines=dup_lines, stop_at_code_end=False)
 
 
 def instruction_size(op, opc):
